@@ -92,6 +92,20 @@ VFieldSeq(x, field) ==
     [] field = "_all" /\ Kind(x) = "MatchMapping" ->
          Zip2(FieldSeq(x, "keys"), FieldSeq(x, "patterns"))
            \o (IF FieldSeq(x, "rest") = <<0>> THEN <<>> ELSE <<<<FieldSeq(x, "rest")[1]>>>>)
+    [] field = "_all" /\ Kind(x) = "arguments" ->
+         \* parameters in syntax order as <<arg, default or 0, star kind 0|1|2>>; the category a plain parameter is
+         \* in (positional-only / normal / keyword-only) is not part of the element
+         LET po == FieldSeq(x, "posonlyargs") \o FieldSeq(x, "args")
+             df == FieldSeq(x, "defaults")
+             nd == Len(po) - Len(df)
+             va == FieldSeq(x, "vararg")
+             ko == FieldSeq(x, "kwonlyargs")
+             kd == FieldSeq(x, "kw_defaults")
+             kw == FieldSeq(x, "kwarg")
+         IN [i \in 1..Len(po) |-> <<po[i], IF i > nd THEN df[i - nd] ELSE 0, 0>>]
+              \o (IF va = <<0>> \/ va = <<>> THEN <<>> ELSE << <<va[1], 0, 1>> >>)
+              \o [i \in 1..Len(ko) |-> <<ko[i], IF i <= Len(kd) THEN kd[i] ELSE 0, 0>>]
+              \o (IF kw = <<0>> \/ kw = <<>> THEN <<>> ELSE << <<kw[1], 0, 2>> >>)
     [] field = "_attrs" -> Wrap1(FieldSeq(x, "patterns"))
                              \o Zip2(FieldSeq(x, "kwd_attrs"), FieldSeq(x, "kwd_patterns"))
     [] OTHER -> Wrap1(FieldSeq(x, field))
